@@ -386,7 +386,8 @@ class Check:
         violations = 0
         lines = []
         for sig, info in sorted(self.known_seen.items()):
-            lines.append(f"KNOWN-FINDING: property={self.prop} {info['finding']['description']} "
+            desc = " ".join(str(info['finding']['description']).split())
+            lines.append(f"KNOWN-FINDING: property={self.prop} {desc} "
                          f"[{sig}; {info['n']} case(s) this run]")
         if self.failures:
             violations = len(self.failures)
